@@ -358,7 +358,71 @@ def run(prog: Program, rep: Report, tier: str):
         rep.decide(not bad, "G8.label-fresh", f, "returns-own-tensor", "every return builds its tensor in the call",
                    "; ".join(f"a return (line {ln}) hands out part of {w}" for ln, w in sorted(set(bad))) + ": the in-place label "
                    "mix of KDMixWrapper writes into that shared object", line=bad[0][0] if bad else f.node.lineno, clause="C11.4")
+    _slot_accumulate(prog, rep)
     names.check(prog, rep, FILES, clause="C11.G1", floor=6)
+
+
+def _slot_accumulate(prog: Program, rep: Report):
+    """Label vectors written slot by slot."""
+    rep.rule("G6.slot-accumulate", "a label vector that is built by writing weights into slots of a fresh zero tensor (t[i] = a; "
+             "t[j] = b) keeps the sum of its weights only if a later write to a slot that may be the same one adds to it (+=, "
+             "index_add_, scatter_add_): own class and partner class coincide whenever the partner has the same class (or is the "
+             "sample itself), and a plain second assignment then overwrites the first weight - the label no longer sums to one")
+    n_sites = 0
+    for rel in FILES:
+        mod = prog.module(rel, required=False)
+        if mod is None:
+            continue
+        for f in prog.all_functions([mod]):
+            fa = fa_of(prog, f)
+            cfg = fa.cfg
+            writes = []  # (node, tensor name, index term, aug?, value term)
+            for n, nd in cfg.nodes.items():
+                if nd.kind != "stmt" or not isinstance(nd.ast, (ast.Assign, ast.AugAssign)):
+                    continue
+                tgs = nd.ast.targets if isinstance(nd.ast, ast.Assign) else [nd.ast.target]
+                for t in tgs:
+                    if isinstance(t, ast.Subscript) and isinstance(t.value, ast.Name) and not isinstance(t.slice, (ast.Slice, ast.Tuple)):
+                        writes.append((n, t.value.id, fa.sym.term(t.slice, n), isinstance(nd.ast, ast.AugAssign),
+                                       fa.sym.term(nd.ast.value, n), ast.unparse(t.slice)[:30]))
+            by_t: Dict[str, list] = {}
+            for w in writes:
+                by_t.setdefault(w[1], []).append(w)
+            for tname, ws in by_t.items():
+                # a fresh zero tensor
+                defs = [(d, val) for d, val, st in [(d_, cfg.def_value(d_, tname), None) for d_ in cfg.nodes
+                                                    if any(v_ == tname for v_, _t, _v in cfg.defs_at(d_))] if val is not None]
+                zero = [d for d, val in defs if isinstance(val, ast.Call) and ast.unparse(val.func).rsplit(".", 1)[-1] in (
+                    "zeros", "zeros_like", "new_zeros")]
+                if not zero or len(ws) < 2:
+                    continue
+                for i, a in enumerate(ws):
+                    for b in ws:
+                        if a is b or a[0] == b[0] or not cfg.reachable(a[0], b[0]) or cfg.reachable(b[0], a[0]):
+                            continue
+                        if a[2] == b[2] or (a[2][0] == "const" and b[2][0] == "const"):
+                            continue  # the same slot on purpose / two fixed slots
+                        if b[4] == ("const", 0) or b[4] == ("const", 0.0):
+                            continue
+                        n_sites += 1
+                        # known to be different slots on the path to the second write?
+                        distinct = False
+                        for e_, pol_, c_, tn_ in fa.cond_parts_at(b[0]):
+                            if c_[0] == "not" and c_[1][0] == "eq" or c_[0] == "ne":
+                                at_ = set(term_to_poly(c_[1][1] if c_[0] == "not" else c_[1]).atoms())
+                                if set(leaves(a[2])) & {x_ for y_ in at_ for x_ in leaves(y_)} and \
+                                        set(leaves(b[2])) & {x_ for y_ in at_ for x_ in leaves(y_)}:
+                                    distinct = True
+                        ok = True if b[3] else (None if distinct else False)
+                        rep.decide(ok, "G6.slot-accumulate", f, f"{tname}[{b[5]}] after {tname}[{a[5]}]",
+                                   "the later write adds to the slot", f"{tname}[{b[5]}] = ... (line {fa.line(b[0])}) "
+                                   f"overwrites the weight written to {tname}[{a[5]}] (line {fa.line(a[0])}) whenever the "
+                                   f"two indices coincide (partner of the same class): the mixed label loses that weight and no "
+                                   f"longer sums to one" if not distinct else "the two slots are compared on this path: not decided",
+                                   line=fa.line(b[0]), clause="C11.3")
+    if n_sites == 0:
+        rep.ok("G6.slot-accumulate", FILES[1], "no-slot-writes", "no label vector is built slot by slot", clause="C11.3",
+               nontrivial=False)
 
 
 def _load_origin(fa: FA, e: ast.AST, at: int, load_role, depth: int = 12, _seen=None):
